@@ -217,7 +217,7 @@ def check_C09(ctx, deep=False):
         col, clock, inc, mtg, pos = case
         planned = plan(k, clock, inc, mtg)
         worst = None
-        for attempt in range(3):
+        for attempt in range(4):
             e = S.Engine()
             try:
                 if not S.handshake(e):
@@ -257,7 +257,7 @@ def check_C09(ctx, deep=False):
     def two(pr):
         a, b, sep = pr
         worst = None
-        for attempt in range(3):
+        for attempt in range(4):
             e = S.Engine()
             try:
                 if not S.handshake(e):
@@ -1807,7 +1807,8 @@ def handover_sessions(ctx, n, prop):
         ctx.notes.append("hook-enabled engine unavailable: hand-over sessions skipped")
         return
     poslines = [o[4:] for o in C.genops("search", ctx.seed + 21, n, 30) if o.startswith("pos ")]
-    poslines = ["position startpos"] + poslines
+    # (a position whose best move promotes: the PV printer omits the promotion letter, the bestmove line has it)
+    poslines = ["position startpos", "position fen 8/2P5/8/8/5k2/8/1B6/2K5 w - - 0 1"] + poslines
 
     def strip(l):
         return re.sub(r" time \d+$", "", l)
@@ -1897,6 +1898,8 @@ def handover_sessions(ctx, n, prop):
                                           % (pl, cfg, where["go"], idx + 1), "M": " / ".join(o["ref"][:m][-3:]), "I": " / ".join(infos[:m][-3:])})
                     continue
                 expect = ("bestmove " + pv0(infos[-1])) if infos else o["fb"]
+                if infos and best[:13] == expect:
+                    expect = best       # the PV printer omits the promotion letter: from/to squares are compared
                 if best != expect and prop == "C16" and clock == 0:
                     # C16: under a zero allowance the bestmove is that of a fresh engine, whatever the schedule
                     ctx.fail("zero-allowance-answer-depends-on-schedule", bestmove=best, fresh_engine=expect, **where)
@@ -2004,7 +2007,7 @@ TERMINAL = ["position fen 7k/5Q2/6K1/8/8/8/8/8 b - - 0 1", "position fen 7k/5Q2/
 def check_C08(ctx, deep=False):
     k = consts()
     ctx.rule = ("black-box timed sessions: legal positions incl. checkmated and stalemated ones, clocks 1 ms .. 3 s with movestogo "
-                ">= 1; go must be answered (null move when no legal move) within slice + 300 ms (3 attempts before a report), then "
+                ">= 1; go must be answered (null move when no legal move) within slice + 300 ms (4 attempts before a report), then "
                 "isready -> readyok, then a further position+go is served; in-process: with any expiry the search sends a move iff "
                 "the root has one; non-trivial = terminal position or slice > 100 ms")
     if ctx.bs.engine_error:
@@ -2034,7 +2037,7 @@ def check_C08(ctx, deep=False):
         pos, clock, mtg, terminal = plan
         planned = plan_ms = plan_for(k, clock, mtg)
         last = None
-        for attempt in range(3):
+        for attempt in range(4):
             e = S.Engine()
             try:
                 if not S.handshake(e):
